@@ -117,24 +117,238 @@ Proof. apply span_p_app. Qed.
 
 (* ------------------------------------------------------------------ the exponent *)
 
+Lemma sql_exp_pos c w : is_digit c = true -> forallb is_digit w = true ->
+  sql_exp (101 :: c :: w) = (Some (Z.of_N (base_value 10 (c :: w))), []).
+Proof.
+  intros Hc Hw. unfold sql_exp. replace ((101 =? 101) || (101 =? 69)) with true by reflexivity.
+  apply is_digit_spec in Hc as R.
+  replace (c =? 45) with false by (symmetry; apply N.eqb_neq; lia).
+  replace (c =? 43) with false by (symmetry; apply N.eqb_neq; lia).
+  assert (forallb is_digit (c :: w) = true) as A by (cbn [forallb]; rewrite Hc, Hw; reflexivity).
+  pose proof (span_digits (c :: w) [] A I) as S. rewrite app_nil_r in S. rewrite S. reflexivity.
+Qed.
+
+Lemma sql_exp_neg c w : is_digit c = true -> forallb is_digit w = true ->
+  sql_exp (101 :: 45 :: c :: w) = (Some (- Z.of_N (base_value 10 (c :: w)))%Z, []).
+Proof.
+  intros Hc Hw. unfold sql_exp. replace ((101 =? 101) || (101 =? 69)) with true by reflexivity.
+  replace (45 =? 45) with true by reflexivity.
+  assert (forallb is_digit (c :: w) = true) as A by (cbn [forallb]; rewrite Hc, Hw; reflexivity).
+  pose proof (span_digits (c :: w) [] A I) as S. rewrite app_nil_r in S. rewrite S. reflexivity.
+Qed.
+
 Lemma sql_exp_emit_int x : sql_exp (101 :: emit_int x) = (Some x, []).
 Proof.
-  unfold sql_exp. replace ((101 =? 101) || (101 =? 69)) with true by reflexivity.
   destruct x as [|p|p]; cbn [emit_int].
   - reflexivity.
-  - destruct (digits_of_cons (Npos p)) as (c & w & E & Hc & Hw). rewrite E.
-    apply is_digit_spec in Hc as R.
-    replace (c =? 45) with false by (symmetry; apply N.eqb_neq; lia).
-    replace (c =? 43) with false by (symmetry; apply N.eqb_neq; lia).
-    rewrite <- E. pose proof (span_digits (digits_of (Npos p)) [] (digits_of_all_digit _) I) as S.
-    rewrite app_nil_r in S. rewrite S. rewrite E at 1.
-    pose proof (digits_of_value (Npos p)) as V. unfold base_value in *. rewrite V. reflexivity.
-  - replace (45 =? 45) with true by reflexivity.
-    pose proof (span_digits (digits_of (Npos p)) [] (digits_of_all_digit _) I) as S.
-    rewrite app_nil_r in S. rewrite S.
-    destruct (digits_of_cons (Npos p)) as (c & w & E & Hc & Hw). rewrite E at 1. rewrite <- E.
-    pose proof (digits_of_value (Npos p)) as V. unfold base_value in *. rewrite V. reflexivity.
+  - destruct (digits_of_cons (Npos p)) as (c & w & E & Hc & Hw). pose proof (digits_of_value (Npos p)) as V.
+    rewrite E in *. rewrite (sql_exp_pos c w Hc Hw), V. reflexivity.
+  - destruct (digits_of_cons (Npos p)) as (c & w & E & Hc & Hw). pose proof (digits_of_value (Npos p)) as V.
+    rewrite E in *. rewrite (sql_exp_neg c w Hc Hw), V. reflexivity.
 Qed.
 
 Lemma sql_exp_nil : sql_exp [] = (None, []).
 Proof. reflexivity. Qed.
+
+(* ------------------------------------------------------------------ reading back what was written *)
+
+Lemma sql_frac_dot w rest : forallb is_digit w = true ->
+  match rest with c :: _ => is_digit c = false | [] => True end -> sql_frac (46 :: w ++ rest) = (w, rest).
+Proof. intros Hw Hr. unfold sql_frac. replace (46 =? 46) with true by reflexivity. apply span_digits; assumption. Qed.
+
+Lemma forallb_firstn {A} (p : A -> bool) : forall n l, forallb p l = true -> forallb p (firstn n l) = true.
+Proof.
+  induction n as [|n IH]; intros [|a l] H; try reflexivity.
+  cbn [forallb firstn] in *. apply andb_true_iff in H as [H1 H2]. rewrite H1, (IH l H2). reflexivity.
+Qed.
+Lemma forallb_skipn {A} (p : A -> bool) : forall n l, forallb p l = true -> forallb p (skipn n l) = true.
+Proof.
+  induction n as [|n IH]; intros [|a l] H; try reflexivity; [exact H|].
+  cbn [forallb skipn] in *. apply andb_true_iff in H as [_ H2]. exact (IH l H2).
+Qed.
+
+Lemma zeros_app a b : zeros a ++ zeros b = zeros (a + b).
+Proof. unfold zeros. symmetry. apply repeat_app. Qed.
+
+Theorem emit_float_norm_value m e : m <> 0 -> m mod 10 <> 0 -> sql_number_value (emit_float_norm m e) = Some (m, e).
+Proof.
+  intros Hm Hd. unfold emit_float_norm.
+  destruct (digits_of_cons m) as (c & w & E & Hc & Hw).
+  pose proof (digits_of_value m) as V. pose proof (digits_of_all_digit m) as A. unfold base_value in V.
+  rewrite E in *. clear E. cbn [length].
+  set (n := S (length w)).
+  destruct ((e + Z.of_nat n - 1 <? -4)%Z || (16 <=? e + Z.of_nat n - 1)%Z).
+  - (* d.ddde<x> *)
+    destruct w as [|c2 w2].
+    + cbn [app]. unfold sql_number_value.
+      change (c :: 101 :: emit_int (e + Z.of_nat n - 1)) with ([c] ++ 101 :: emit_int (e + Z.of_nat n - 1)).
+      rewrite (span_digits [c] (101 :: emit_int (e + Z.of_nat n - 1)) A eq_refl).
+      unfold sql_frac. replace (101 =? 46) with false by reflexivity.
+      rewrite sql_exp_emit_int. cbn [app length]. unfold base_value. rewrite V.
+      replace (e + Z.of_nat n - 1 - Z.of_nat 0)%Z with e by (subst n; cbn [length]; lia).
+      rewrite norm_dec_normal by assumption. reflexivity.
+    + cbn [app]. unfold sql_number_value.
+      assert (forallb is_digit [c] = true) as A1 by (cbn [forallb]; rewrite Hc; reflexivity).
+      change (c :: 46 :: c2 :: w2 ++ 101 :: emit_int (e + Z.of_nat n - 1))
+        with ([c] ++ 46 :: (c2 :: w2) ++ 101 :: emit_int (e + Z.of_nat n - 1)).
+      rewrite (span_digits [c] (46 :: (c2 :: w2) ++ 101 :: emit_int (e + Z.of_nat n - 1)) A1 eq_refl).
+      rewrite (sql_frac_dot (c2 :: w2) (101 :: emit_int (e + Z.of_nat n - 1)) Hw eq_refl).
+      rewrite sql_exp_emit_int. cbn [app]. unfold base_value. rewrite V.
+      replace (e + Z.of_nat n - 1 - Z.of_nat (length (c2 :: w2)))%Z with e by (subst n; lia).
+      rewrite norm_dec_normal by assumption. reflexivity.
+  - destruct (0 <=? e)%Z eqn:Ee.
+    + (* ddd000.0 *)
+      apply Z.leb_le in Ee. set (k := Z.to_nat e).
+      unfold sql_number_value. rewrite app_assoc.
+      assert (forallb is_digit ((c :: w) ++ zeros k) = true) as A2 by (rewrite forallb_app, A, zeros_digits; reflexivity).
+      rewrite (span_digits _ [46; 48] A2 eq_refl). cbn [app].
+      assert (sql_frac [46; 48] = ([48], @nil N)) as -> by reflexivity. rewrite sql_exp_nil.
+      change (c :: w ++ zeros k) with ((c :: w) ++ zeros k). rewrite <- app_assoc.
+      change [48] with (zeros 1). rewrite zeros_app.
+      change (c :: w ++ zeros (k + 1)) with ((c :: w) ++ zeros (k + 1)).
+      unfold base_value. rewrite base_value_acc_app, V, base_value_zeros.
+      replace (0 - Z.of_nat (length (zeros 1)))%Z with (e - Z.of_nat (k + 1))%Z by (rewrite zeros_length; subst k; lia).
+      rewrite norm_dec_scale by assumption. reflexivity.
+    + apply Z.leb_gt in Ee. set (k := Z.to_nat (- e)).
+      destruct (k <? n)%nat eqn:Ek.
+      * (* dd.ddd *)
+        apply Nat.ltb_lt in Ek.
+        assert (exists j, (n - k)%nat = S j) as [j Ej] by (exists (n - k - 1)%nat; lia). rewrite Ej.
+        unfold sql_number_value.
+        assert (forallb is_digit (firstn (S j) (c :: w)) = true) as A3 by (apply forallb_firstn, A).
+        rewrite (span_digits _ (46 :: skipn (S j) (c :: w)) A3 eq_refl).
+        cbn [firstn]. 
+        assert (forallb is_digit (skipn (S j) (c :: w)) = true) as A4 by (apply forallb_skipn, A).
+        rewrite <- (app_nil_r (skipn (S j) (c :: w))) at 1.
+        rewrite (sql_frac_dot _ [] A4 I). rewrite sql_exp_nil.
+        change (c :: firstn j w) with (firstn (S j) (c :: w)). rewrite firstn_skipn.
+        unfold base_value. rewrite V.
+        replace (0 - Z.of_nat (length (skipn (S j) (c :: w))))%Z with e.
+        { rewrite norm_dec_normal by assumption. reflexivity. }
+        rewrite skipn_length. change (length (c :: w)) with n. subst k. lia.
+      * (* 0.000ddd *)
+        apply Nat.ltb_ge in Ek. unfold sql_number_value.
+        rewrite <- (app_nil_r (zeros (k - n) ++ c :: w)) at 1.
+        change (48 :: 46 :: (zeros (k - n) ++ c :: w) ++ []) with ([48] ++ 46 :: (zeros (k - n) ++ c :: w) ++ []).
+        rewrite (span_digits [48] (46 :: (zeros (k - n) ++ c :: w) ++ []) eq_refl eq_refl).
+        assert (forallb is_digit (zeros (k - n) ++ c :: w) = true) as A5 by (rewrite forallb_app, zeros_digits, A; reflexivity).
+        rewrite (sql_frac_dot _ [] A5 I). rewrite sql_exp_nil.
+        change ([48] ++ zeros (k - n) ++ c :: w) with (zeros (S (k - n)) ++ c :: w).
+        unfold base_value. rewrite base_value_leading_zeros, V.
+        replace (0 - Z.of_nat (length (zeros (k - n) ++ c :: w)))%Z with e.
+        { rewrite norm_dec_normal by assumption. reflexivity. }
+        rewrite app_length, zeros_length. change (length (c :: w)) with n. subst k. lia.
+Qed.
+
+(* the text emitted for the decimal value m * 10^e reads back as exactly that value (normal form), for ALL m, e *)
+Theorem emit_float_value m e : sql_number_value (emit_float m e) = Some (norm_dec m e).
+Proof.
+  unfold emit_float. destruct (m =? 0) eqn:Z.
+  - apply N.eqb_eq in Z. subst m. reflexivity.
+  - apply N.eqb_neq in Z. destruct (norm_dec_spec m e Z) as (m' & k & E & _ & A & B). rewrite E.
+    apply emit_float_norm_value; assumption.
+Qed.
+
+Theorem emit_float_rust_value m e : overflows m e = false -> sql_number_value (emit_float_rust m e) = Some (norm_dec m e).
+Proof. intro H. unfold emit_float_rust. rewrite H. apply emit_float_value. Qed.
+
+(* ------------------------------------------------------------------ the emitted text is ONE number token *)
+
+(* every character continues the number after the one before it (SqlLex.num_continues) *)
+Fixpoint num_ok (prev : N) (w : str) : bool :=
+  match w with
+  | [] => true
+  | c :: r => (is_wordc c || (c =? 46) || (((c =? 43) || (c =? 45)) && ((prev =? 101) || (prev =? 69)))) && num_ok c r
+  end.
+
+Lemma lex_num_ok d : forall w p acc suf, num_ok p w = true ->
+  run d (LNum (p :: acc)) (w ++ suf) = run d (LNum (rev w ++ p :: acc)) suf.
+Proof.
+  induction w as [|c r IH]; intros p acc suf H; [reflexivity|].
+  cbn [num_ok] in H. apply andb_true_iff in H as [Hc Hr].
+  cbn [app run step]. unfold num_continues. rewrite Hc. cbn [app].
+  rewrite (IH c (p :: acc) suf Hr). cbn [rev]. rewrite <- app_assoc. reflexivity.
+Qed.
+
+Lemma step0_digit c : is_digit c = true -> step0 c = (LNum [c], []).
+Proof.
+  intro Hc. unfold step0. pose proof Hc as Hc'. apply is_digit_spec in Hc'.
+  assert (is_space c = false) as E1.
+  { unfold is_space. repeat (apply orb_false_iff; split); apply N.eqb_neq; lia. }
+  rewrite E1.
+  replace (c =? 39) with false by (symmetry; apply N.eqb_neq; lia).
+  replace (c =? 34) with false by (symmetry; apply N.eqb_neq; lia).
+  replace (c =? 96) with false by (symmetry; apply N.eqb_neq; lia).
+  cbn [orb]. rewrite Hc. reflexivity.
+Qed.
+
+Lemma numeric_text_one_token d c w : is_digit c = true -> num_ok c w = true -> sql_lex d (c :: w) = [TNumber (c :: w)].
+Proof.
+  intros Hc Hw. unfold sql_lex. cbn [run]. change (step d L0 c) with (step0 c). rewrite (step0_digit c Hc). cbn [app].
+  rewrite <- (app_nil_r w). rewrite (lex_num_ok d w c [] [] Hw). cbn [run finish].
+  rewrite rev_app_distr. cbn [rev app]. rewrite rev_involutive, app_nil_r. reflexivity.
+Qed.
+
+Definition simple_char (c : N) : bool := is_digit c || (c =? 46).
+
+Lemma num_ok_simple_then : forall a p b, forallb simple_char a = true -> (forall q, num_ok q b = true) -> num_ok p (a ++ b) = true.
+Proof.
+  induction a as [|c r IH]; intros p b Ha Hb; [apply Hb|].
+  cbn [forallb] in Ha. apply andb_true_iff in Ha as [Hc Hr]. cbn [app num_ok]. rewrite (IH c b Hr Hb), andb_true_r.
+  unfold simple_char in Hc. apply orb_true_iff in Hc as [Hc|Hc].
+  - rewrite (digit_wordc c Hc). reflexivity.
+  - rewrite Hc. rewrite orb_true_r. reflexivity.
+Qed.
+
+Lemma num_ok_simple a p : forallb simple_char a = true -> num_ok p a = true.
+Proof. intro H. rewrite <- (app_nil_r a). apply num_ok_simple_then; [exact H | reflexivity]. Qed.
+
+Lemma digits_simple w : forallb is_digit w = true -> forallb simple_char w = true.
+Proof.
+  intro H. rewrite forallb_forall in *. intros x Hx. unfold simple_char. rewrite (H x Hx). reflexivity.
+Qed.
+
+Lemma num_ok_exponent x q : num_ok q (101 :: emit_int x) = true.
+Proof.
+  cbn [num_ok]. replace (is_wordc 101) with true by reflexivity. cbn [orb andb].
+  destruct x as [|p|p]; cbn [emit_int].
+  - reflexivity.
+  - apply num_ok_simple, digits_simple, digits_of_all_digit.
+  - cbn [num_ok].
+    assert (is_wordc 45 || (45 =? 46) || ((45 =? 43) || (45 =? 45)) && ((101 =? 101) || (101 =? 69)) = true) as -> by reflexivity.
+    cbn [andb]. apply num_ok_simple, digits_simple, digits_of_all_digit.
+Qed.
+
+Theorem emit_float_norm_one_token d m e : sql_lex d (emit_float_norm m e) = [TNumber (emit_float_norm m e)].
+Proof.
+  unfold emit_float_norm.
+  destruct (digits_of_cons m) as (c & w & E & Hc & Hw). pose proof (digits_of_all_digit m) as A.
+  rewrite E in *. clear E. cbn [length]. set (n := S (length w)).
+  pose proof (digits_simple w Hw) as Sw.
+  destruct ((e + Z.of_nat n - 1 <? -4)%Z || (16 <=? e + Z.of_nat n - 1)%Z).
+  - apply numeric_text_one_token; [exact Hc|].
+    destruct w as [|c2 w2].
+    + cbn [app]. apply num_ok_exponent.
+    + cbv iota.
+      apply (num_ok_simple_then (46 :: c2 :: w2)); [|intro q; apply num_ok_exponent].
+      change (forallb simple_char (46 :: c2 :: w2)) with (simple_char 46 && forallb simple_char (c2 :: w2)).
+      rewrite Sw. reflexivity.
+  - destruct (0 <=? e)%Z.
+    + cbn [app]. apply numeric_text_one_token; [exact Hc|]. apply num_ok_simple.
+      rewrite !forallb_app, Sw, (digits_simple _ (zeros_digits _)). reflexivity.
+    + destruct (Z.to_nat (- e) <? n)%nat eqn:Ek.
+      * apply Nat.ltb_lt in Ek.
+        assert (exists j, (n - Z.to_nat (- e))%nat = S j) as [j Ej] by (exists (n - Z.to_nat (- e) - 1)%nat; lia). rewrite Ej.
+        cbn [firstn app]. apply numeric_text_one_token; [exact Hc|]. apply num_ok_simple.
+        rewrite forallb_app. cbn [forallb].
+        rewrite (digits_simple _ (forallb_firstn is_digit j w Hw)).
+        rewrite (digits_simple _ (forallb_skipn is_digit (S j) (c :: w) A)). reflexivity.
+      * apply numeric_text_one_token; [reflexivity|]. apply num_ok_simple.
+        cbn [forallb]. rewrite forallb_app, (digits_simple _ (zeros_digits _)). cbn [forallb].
+        unfold simple_char at 2. rewrite Hc, Sw. reflexivity.
+Qed.
+
+Theorem emit_float_one_token d m e : sql_lex d (emit_float m e) = [TNumber (emit_float m e)].
+Proof.
+  unfold emit_float. destruct (m =? 0); [reflexivity|]. destruct (norm_dec m e) as [m' e']. apply emit_float_norm_one_token.
+Qed.
